@@ -69,6 +69,8 @@ class Tr(SVal):
     def py_str(self, cx):
         return SStr(z3.String("str of " + show(self)))
 
+    elementwise = True  # f(*trace): the trace stands for the whole argument list
+
     def __repr__(self):
         return "Tr" + show(self.e)
 
@@ -141,7 +143,7 @@ class One(FnSpec):
         super().__init__()
 
     def init(self):
-        for n in ("map", "iter", "len", "list", "set", "repr", "filter", "sorted"):
+        for n in ("map", "iter", "len", "list", "set", "repr", "filter", "sorted", "reversed", "tuple"):
             self.bindings[n] = builtin(n)
         for k, v in self._bindings.items():
             self.bindings[k] = v
@@ -279,6 +281,29 @@ def table():
         out.append(
             Ovl(cls + ".attrs", ("C01", "C09"), {"self": s}, bindings={"IH5AttributeManager": Tr(("global", "IH5AttributeManager"))}, raises={"KeyError": z3.Not(truth(call(at(s, "_guard_open"))))} if False else {}, result=call(Tr(("global", "IH5AttributeManager")), at(s, "_record"), at(s, "_gpath"), at(s, "_cidx")), clause="the attribute set of a node is resolved from the same path and the same creation index as the node (after the open-guard)", result_pred=lambda cx, a, res, s=s: z3.BoolVal(same(res, call(Tr(("global", "IH5AttributeManager")), at(s, "_record"), at(s, "_gpath"), at(s, "_cidx"))) and [e[1] for e in cx.fx if e[0] == "call"][:1] == [show(call(at(s, "_guard_open")))]))
         )
+    # ---- harvesting pipeline (C14: results are combined by the partial-merge fold, in the given order) ----
+    schema, sources, obj = Tr(("arg", "schema")), Tr(("arg", "sources")), Tr(("arg", "obj"))
+    hs = Tr(("global", "_harvest_source"))
+
+    def harvested(ignore_invalid):
+        per_source = lam(lambda x: call(at(at(schema, "Partial"), "cast"), call(hs, schema, x), ignore_invalid=ignore_invalid))
+        return call(at(at(schema, "Partial"), "merge"), bi("map", per_source, sources))
+
+    class Harvest(One):
+        def setup(self, cx):
+            a = One.setup(self, cx)
+            a["ignore_invalid"], a["return_partial"] = cx.choose(2) == 1, cx.choose(2) == 1
+            return a
+
+        def ensures(self, cx, a, res):
+            m = harvested(a["ignore_invalid"])
+            want = m if a["return_partial"] else call(at(m, "from_partial"))
+            return [("result", z3.BoolVal(same(res, want)), self._clause)]
+
+    out.append(Harvest("harvester/__init__.py", "harvest", ("C14",), {"schema": schema, "sources": sources}, bindings={"_harvest_source": hs}, clause="the results of the sources, each cast into the schema's partial class (with the caller's ignore_invalid), are combined by Partial.merge in the GIVEN order; the full model is built from that unless the partial is asked for"))
+    is_path, is_hv = z3.Bool(f"isinstance({show(obj)}, Path)"), z3.Bool(f"isinstance({show(obj)}, Harvester)")
+    ml = Tr(("global", "metadata_loader"))
+    out.append(One("harvester/__init__.py", "_harvest_source", ("C14",), {"schema": schema, "obj": obj}, bindings={"Path": SClass("Path"), "Harvester": SClass("Harvester"), "metadata_loader": ml}, raises={"ValueError": z3.And(z3.Not(is_path), z3.Not(is_hv))}, cases=[(is_path, call(at(call(call(ml, schema), filepath=obj), "harvest"))), (z3.And(z3.Not(is_path), is_hv), call(at(obj, "harvest")))], clause="a path is loaded through the schema's metadata loader, a harvester is run as it is; anything else is refused"))
     # ---- the overlay kernel's notion of a virtual node, and node validity (C01) ----
     node = Tr(("arg", "node"))
 
